@@ -222,6 +222,7 @@ type srvWorld struct {
 type stopCause struct {
 	Kind       string // "stopped", "closed", "error"
 	Begin, End int
+	Optional   bool // an event that may, but need not, end the connection (a failed Send)
 }
 
 type srvCfg struct {
